@@ -426,6 +426,59 @@ func init() {
 		o := &hostObj{kind: "valuectx", aux: []value{args[0], args[1], args[2]}}
 		return iface{t: hostIfaceT, v: o}
 	}
+	// context.WithCancel: a context whose Err() is nil until its cancel function ran
+	// (Done channels and propagation to children are not modelled)
+	intrinsics["context.WithCancel"] = func(fr *frame, args []value) value {
+		o := &hostObj{kind: "cancelctx", aux: []value{args[0], false}}
+		cancel := &hostFunc{f: func(fr *frame, _ []value) value {
+			o.aux.([]value)[1] = true
+			return nil
+		}}
+		return tuple{iface{t: hostIfaceT, v: o}, cancel}
+	}
+	hostMethods["cancelctx.Err"] = func(fr *frame, o *hostObj, args []value) value {
+		a := o.aux.([]value)
+		if a[1].(bool) {
+			if pkg := fr.i.prog.ImportedPackage("context"); pkg != nil && pkg.Var("Canceled") != nil {
+				return *(fr.get(pkg.Var("Canceled")).(*value))
+			}
+			return fr.i.mkError("context canceled")
+		}
+		parent := a[0].(iface)
+		if parent.t == nil {
+			return iface{}
+		}
+		if po, ok := parent.v.(*hostObj); ok {
+			if _, has := hostMethods[po.kind+".Err"]; has {
+				return callHostMethod(fr, &hostMethod{po, "Err"}, nil)
+			}
+			return iface{}
+		}
+		return callMethod(fr.i, fr, parent, "Err")
+	}
+	hostMethods["cancelctx.Value"] = func(fr *frame, o *hostObj, args []value) value {
+		parent := o.aux.([]value)[0].(iface)
+		if parent.t == nil {
+			return iface{}
+		}
+		if po, ok := parent.v.(*hostObj); ok {
+			return callHostMethod(fr, &hostMethod{po, "Value"}, args)
+		}
+		return callMethod(fr.i, fr, parent, "Value", args[0])
+	}
+	hostMethods["valuectx.Err"] = func(fr *frame, o *hostObj, args []value) value {
+		parent := o.aux.([]value)[0].(iface)
+		if parent.t == nil {
+			return iface{}
+		}
+		if po, ok := parent.v.(*hostObj); ok {
+			if _, has := hostMethods[po.kind+".Err"]; has {
+				return callHostMethod(fr, &hostMethod{po, "Err"}, nil)
+			}
+			return iface{}
+		}
+		return callMethod(fr.i, fr, parent, "Err")
+	}
 	hostMethods["valuectx.Value"] = func(fr *frame, o *hostObj, args []value) value {
 		a := o.aux.([]value)
 		key := args[0].(iface)
